@@ -36,6 +36,11 @@ impl Embed {
         let common = if k == 0 { 0 } else { (rand128(rng) & low(4 * k)) << (width - 4 * k) };
         Embed { width, k, common }
     }
+    /// the universe embedded below an all-zero prefix (k >= 24 nibbles of a 128-bit family: inside ::/96, the
+    /// deprecated "IPv4-compatible" range, which is IPv6 and not IPv4-mapped)
+    fn zero(width: u32, k: u32) -> Self {
+        Embed { width, k, common: 0 }
+    }
     fn tail_bits(&self) -> u32 {
         self.width - 4 * self.k - 8
     }
@@ -157,10 +162,13 @@ fn run_set(id: u64, act: &Value, out: &Value, seed: u64) -> Value {
     let k6a = (id % 31) as u32;
     let k6b = ((id * 5 + 11) % 31) as u32;
     // (v4 depth, v6 depth, mapped spellings): combined filter, v4 only, v6 only
-    let plans: [(Option<u32>, Option<u32>, bool); 3] = [(Some(k4a), Some(k6a), false), (Some(k4b), None, true), (None, Some(k6b), false)];
+    // the last two plans put the IPv6 universe inside ::/96 (24..29 zero nibbles), alone and next to IPv4 subnets
+    let k6z = 24 + (id % 6) as u32;
+    let plans: [(Option<u32>, Option<u32>, bool); 5] = [(Some(k4a), Some(k6a), false), (Some(k4b), None, true), (None, Some(k6b), false),
+                                                        (None, Some(100 + k6z), false), (Some(k4b), Some(100 + k6z), false)];
     for (p4, p6, mapped) in plans {
         let e4 = p4.map(|k| Embed::new(32, k, &mut rng));
-        let e6 = p6.map(|k| Embed::new(128, k, &mut rng));
+        let e6 = p6.map(|k| if k >= 100 { Embed::zero(128, k - 100) } else { Embed::new(128, k, &mut rng) });
         let mut strings = vec![];
         let r = util::catch(|| -> Result<Option<(String, Value)>, String> {
             let mut subnets = vec![];
@@ -184,6 +192,17 @@ fn run_set(id: u64, act: &Value, out: &Value, seed: u64) -> Value {
                 lookups += 1;
                 if filter.is_in(IpAddr::V4(v4(rand128(&mut rng)))) {
                     return Ok(Some(("outside".into(), json!({"note": "IPv4 address matched a filter without IPv4 subnets"}))));
+                }
+            }
+            if let (Some(e), None) = (&e4, &e6) {
+                // ... in particular not ::a.b.c.d for the members a.b.c.d of the IPv4 subnets
+                for a in (0..256u32).filter(|a| case.members[*a as usize]).take(8) {
+                    let x = e.addr(a, &mut rng) & low(32);
+                    lookups += 1;
+                    if x > 0xFFFF && filter.is_in(IpAddr::V6(v6(x))) {
+                        return Ok(Some(("outside".into(), json!({"addr": v6(x).to_string(), "expected": false, "observed": true,
+                                                                 "note": "IPv6 address in ::/96 matched a filter that only has IPv4 subnets"}))));
+                    }
                 }
             }
             if e6.is_none() {
